@@ -47,8 +47,7 @@ structure Prims (P : State → Prop) (H : State → Nat → Nat → Prop) (G : S
   acqFinish : ∀ {s} r u, P s → idInUse s r = false → P (Pool.acqFinish s r u)
   unlend : ∀ {s r h b c'}, P s → s.holders.find? (·.req == r) = some h →
     findName s.blocks h.name = some b → b.conns.find? (·.1 == h.conn) = some (c', true) →
-    H (Pool.unlend { s with holders := s.holders.filter (·.req != r) } r b.uid h.conn) b.uid h.conn
-  dropHolder : ∀ {s} r, P s → P { s with holders := s.holders.filter (·.req != r) }
+    H (Pool.unlend s r b.uid h.conn) b.uid h.conn
   dropConnTask : ∀ {s tid t}, P s → s.task tid = some t →
     (t.closing = false ∧ t.byHolder = false ∧ ∀ u c st h, t ≠ .disc u c st h) → P (s.dropTask tid)
   connOk : ∀ {s u b0}, P s → s.find u = some b0 → P (Pool.connOk s u b0.name)
@@ -287,14 +286,12 @@ theorem release (X : Prims P H G) (env : Env) {s : State} (h : P s) (r : Nat) (d
   split
   · exact X.fail h _
   · rename_i hd hfind
-    have h0 := X.dropHolder r h
-    simp only
     split
-    · exact X.fail h0 _
+    · exact X.fail h _
     · rename_i b hb
       split
-      · exact X.fail h0 _
-      · exact X.fail h0 _
+      · exact X.fail h _
+      · exact X.fail h _
       · rename_i c' hc
         exact X.relRoute env (X.maybeTickH (X.unlend h hfind hb hc)) _
 
@@ -528,6 +525,22 @@ theorem run (X : Prims P H G) (evs : List (Env × Ev)) (hev : ∀ x ∈ evs, NoP
     intro s h
     have hx := hev x (by simp)
     exact ih (fun y hy => hev y (by simp [hy])) _ (X.step h x.1 x.2 hx.1 hx.2)
+
+/-- executable form of `NoPruneEv` (for concrete histories) -/
+def okEv : Ev → Bool
+  | .prune _ _ => false
+  | .pall => false
+  | _ => true
+
+theorem noPrune_of_ok {e : Ev} (h : okEv e = true) : NoPruneEv e := by
+  cases e with
+  | prune p n => simp [okEv] at h
+  | pall => simp [okEv] at h
+  | _ => exact ⟨fun _ _ => by simp, by simp⟩
+
+theorem noPrune_all {evs : List (Env × Ev)} (h : evs.all (fun x => okEv x.2) = true) :
+    ∀ x ∈ evs, NoPruneEv x.2 :=
+  fun x hx => noPrune_of_ok (List.all_eq_true.mp h x hx)
 
 end Prims
 
